@@ -158,7 +158,7 @@ class CollectionStore(object):
 
         with self._rwlock.reader():
             expired_ids = [
-                doc['_id'] for doc in self._documents.values()
+                key for key, doc in self._documents.items()
                 if self._value_meets_expiry(doc.get(ttl_field_name), expiry, ttl_now)
             ]
 
